@@ -12,7 +12,7 @@ RULE = ("exhaustive: every raster over {0,1} with <= 12 cells (quick) / <= 16 ce
         "with <= 9 (quick) / <= 10 cells, every HxW factorisation incl. 1xN, Nx1, both neighbourhoods; random: <= 20x20 with "
         "U/S/spiral/comb shapes, NaN cells, int32/int64/float32/float64, 2-4 values; oracle = BFS flood fill, label<->component "
         "bijection; non-trivial = distinct raster with a component that needs >= 1 provisional-label merge in a one-pass scan")
-BUDGET = {'quick': 90, 'thorough': 900}
+BUDGET = {'quick': 150, 'thorough': 1200}
 FLOORS = {'quick': {'bijection': 50000, 'needs_merge': 5000, 'shape.1xN': 100, 'shape.Nx1': 100, 'nan_cells_stay_nan': 3000,
                     'conn8': 20000, 'conn4': 20000},
           'thorough': {'bijection': 500000, 'needs_merge': 50000}}
@@ -46,7 +46,7 @@ def plan(tier, seed):
         for b in range(nblk):
             out.append(('exh3', '%d,%d,%d,%d' % (h, w, b, nblk)))
             out.append(('exh3n', '%d,%d,%d,%d' % (h, w, b, nblk)))
-    n = 3000 if tier == 'quick' else 30000
+    n = 4500 if tier == 'quick' else 40000
     out += [('rand', i) for i in range(n)]
     return out
 
@@ -57,7 +57,7 @@ def shard_filter(descs, shard, nshards, mode):
 
 
 def _structured(rng, H, W):
-    kind = str(rng.choice(['U', 'S', 'spiral', 'comb', 'checker', 'noise', 'rings']))
+    kind = str(rng.choice(['U', 'S', 'spiral', 'comb', 'checker', 'noise', 'rings', 'noise', 'noise', 'noise', 'noise3']))
     a = np.zeros((H, W))
     if kind == 'U':
         a[:, 0] = 1; a[:, -1] = 1; a[-1, :] = 1
@@ -85,8 +85,10 @@ def _structured(rng, H, W):
     elif kind == 'rings':
         yy, xx = np.mgrid[0:H, 0:W]
         a = (np.minimum(np.minimum(yy, H - 1 - yy), np.minimum(xx, W - 1 - xx)) % 2).astype(float)
+    elif kind == 'noise3':
+        a = rng.integers(0, 3, (H, W)).astype(float)
     else:
-        a = (rng.random((H, W)) < 0.5).astype(float)
+        a = (rng.random((H, W)) < float(rng.choice([0.3, 0.4, 0.5, 0.6, 0.7]))).astype(float)
     if rng.random() < 0.5:
         a = a.T.copy() if a.T.shape == (H, W) else a
     if rng.random() < 0.5:
@@ -157,9 +159,11 @@ def check(rec, kind, idx, rng, tier):
         return
     # random / structured
     H, W = int(rng.integers(1, 21)), int(rng.integers(1, 21))
-    if rng.random() < 0.15:
+    if rng.random() < 0.5:
+        H, W = int(rng.integers(10, 25)), int(rng.integers(10, 25))
+    if rng.random() < 0.1:
         H = 1
-    elif rng.random() < 0.15:
+    elif rng.random() < 0.1:
         W = 1
     skind, a = _structured(rng, H, W)
     dt = str(rng.choice(['int32', 'int64', 'float32', 'float64']))
